@@ -289,7 +289,16 @@ func Summarise(p *Program, results []*RuleResult, out Outcome, explanation strin
 		}
 		rules = append(rules, m)
 	}
+	var exceptions []map[string]string
+	for _, rr := range results {
+		for _, o := range rr.Obs {
+			if o.Status == Discharged && (strings.HasPrefix(o.How, "exception") || strings.HasPrefix(o.How, "invariant:")) {
+				exceptions = append(exceptions, map[string]string{"rule": rr.ID, "site": o.Key, "how": o.How, "reason": o.Detail})
+			}
+		}
+	}
 	cov := map[string]interface{}{
+		"reasoned_exceptions": exceptions,
 		"explanation":         explanation,
 		"obligations":         total,
 		"discharged":          disch,
